@@ -405,6 +405,26 @@ func (w *c19World) stopRace() {
 				w.fail("other-connection-disturbed", fmt.Sprintf("PING after a second Start got %s", o))
 			}
 		}
+	case "registry-polled-during-churn":
+		// an application goroutine enumerates the registry while clients come and go
+		// (registry readers and writers contend), then Stop
+		vrt.Go("client-racer", func() {
+			for i := 0; i < 3; i++ {
+				w.srv.Conns()
+				vrt.Yield("application-poll")
+			}
+		})
+		for i := 0; i < 2; i++ {
+			vrt.Go("client-racer", func() {
+				cl, o := sched.Dial(":6379")
+				if o.Status != "ok" {
+					return
+				}
+				cl.Do("PING")
+				cl.Close()
+			})
+		}
+		vrt.WaitQuiet()
 	case "port-disabled-by-api", "port-disabled-by-client":
 		// the configuration says "no plain port" / "no TLS port" by the time Stop runs (the
 		// application prepared the next start, or a client sent CONFIG SET): the listening
@@ -520,7 +540,7 @@ func c19Run(c *fw.Ctx) {
 		return seqs
 	}
 	var races, len12, len3 []c19Case
-	for _, race := range []string{"connecting", "backlog", "in-flight", "tls-handshaking", "tls-stalled", "after-second-start", "write-parked", "tls-write-parked", "port-disabled-by-api", "port-disabled-by-client"} {
+	for _, race := range []string{"connecting", "backlog", "in-flight", "tls-handshaking", "tls-stalled", "after-second-start", "write-parked", "tls-write-parked", "port-disabled-by-api", "port-disabled-by-client", "registry-polled-during-churn"} {
 		for bg := 0; bg <= 1; bg++ {
 			races = append(races, c19Case{Kind: "sched", Background: bg, StopRace: race, Endings: []string{"stop:" + race}})
 		}
